@@ -1,7 +1,8 @@
 #!/bin/sh
-# usage: tools_seedtest.sh <patch.diff> <ID> [tier]   -- apply a seeded change to /repo, run the check, undo (always)
-P=$1; ID=$2; TIER=${3:-quick}
-trap 'git -C /repo checkout -- . ' EXIT INT TERM
-cd /repo && git apply "$P" || { echo "APPLY FAILED"; exit 9; }
-cd /verif && timeout ${SEED_TIMEOUT:-600} ./check $ID --tier $TIER --no-evidence; rc=$?
+# usage: tools_seedtest.sh <patch.diff> <ID> [tier]   -- apply a seeded change to a repository tree, run the check, undo (always)
+# REPO_TREE selects the tree (default /repo); with another tree the check is pointed at it through PLOTINK_REPO.
+P=$1; ID=$2; TIER=${3:-quick}; R=${REPO_TREE:-/repo}
+trap 'git -C $R checkout -- . ' EXIT INT TERM
+cd $R && git apply "$P" || { echo "APPLY FAILED"; exit 9; }
+cd /verif && PLOTINK_REPO=$R timeout ${SEED_TIMEOUT:-600} ./check $ID --tier $TIER --no-evidence; rc=$?
 echo "seedtest $P $ID -> exit $rc"
